@@ -29,12 +29,12 @@ inductive Instr
   | jump (off : Int) | jneP (off : Int) | jeqP (off : Int)
   | iterateP (sp : IterSpec) | iterNext (off : Int) | enumPop | enumPopClose
   | enumerate (n : Nat) | enumNext (off : Int)
-  | enterWith | leaveWith | enterBlock (n : Nat) | leaveBlock (n : Nat)
+  | enterWith | leaveWith | enterBlock (n : Nat) | leaveBlock (n : Nat) | copyStash
   | ret | throw
   | nop   -- placeholder `nil` that was never patched (ill-formed program)
   deriving DecidableEq, Repr
 
-inductive BT | loop | loopEnum | try_ | label | switch_ | with_ | scope
+inductive BT | loop | loopEnum | try_ | label | switch_ | with_ | scope | iterScope
   deriving DecidableEq, Repr
 
 /-- compiler.go:315 `type block struct` (needResult omitted: always false in function bodies);
@@ -118,20 +118,28 @@ def findBreakBlock (label : Option Label) (isBreak : Bool) (blocks : List Block)
   | some l => findLabelled l isBreak blocks none
   | none => findUnlabelled isBreak blocks
 
-/-- compiler_stmt.go:618 emitBlockExitCode: walk from the innermost block to the block of height `t`. -/
-def exitWalk (t : Nat) : List Block → Array Instr → List Block × Array Instr
+/-- compiler_stmt.go:618 emitBlockExitCode: walk from the innermost block to the block of height `t`.
+`cfl` = contForLoop (`continue` targeting a plain loop): the walk then stops at the target loop's own
+per-iteration scope (`b.typ == blockIterScope && b.outer == block`), which `continue` must not leave. -/
+def exitWalk (t : Nat) (cfl : Bool) : List Block → Array Instr → List Block × Array Instr
   | [], code => ([], code)
   | b :: rest, code =>
     if rest.length = t then (b :: rest, code)
+    else if b.typ = BT.iterScope ∧ cfl ∧ rest.length = t + 1 then (b :: rest, code)
     else
       let (b', code') : Block × Array Instr := match b.typ with
         | BT.scope => ({ b with breaks := b.breaks ++ [code.size] }, code.push Instr.nop)
+        | BT.iterScope => ({ b with breaks := b.breaks ++ [code.size] }, code.push Instr.nop)
         | BT.try_ => (b, code.push Instr.leaveTry)
         | BT.with_ => (b, code.push Instr.leaveWith)
         | BT.loopEnum => (b, code.push Instr.enumPopClose)
         | _ => (b, code)
-      let (rest', code'') := exitWalk t rest code'
+      let (rest', code'') := exitWalk t cfl rest code'
       (b' :: rest', code'')
+
+def typAtHeight (t : Nat) : List Block → Option BT
+  | [] => none
+  | b :: rest => if rest.length = t then some b.typ else typAtHeight t rest
 
 def modAtHeight (t : Nat) (f : Block → Block) : List Block → List Block
   | [] => []
@@ -142,7 +150,8 @@ def compileBranch (label : Option Label) (isBreak : Bool) (cs : CS) : CS :=
   match findBreakBlock label isBreak cs.blocks with
   | none => cs.emit Instr.nop        -- "Could not find block" (syntax error in goja)
   | some t =>
-    let (blocks, code) := exitWalk t cs.blocks cs.code
+    let cfl := !isBreak && typAtHeight t cs.blocks == some BT.loop
+    let (blocks, code) := exitWalk t cfl cs.blocks cs.code
     let pc := code.size
     let blocks := modAtHeight t (fun b =>
       if isBreak then { b with breaks := b.breaks ++ [pc] } else { b with conts := b.conts ++ [pc] }) blocks
@@ -250,6 +259,28 @@ def compileCF (cur : Nat) (lab : Option Label) : Stmt → CS → CS
     let cs := cs.emit (.cntInc id)
     let cs := cs.emit (.jump (CS.rel start cs.size))
     (cs.patch j (.jneP (CS.rel cs.size j))).leaveBlock
+  | .loop .forlet id n body, cs =>
+    -- compiler_stmt.go:252 compileLabeledForStatement with a lexical head declaration captured by a closure:
+    -- JS: for (let q = 0; q < n; q++) { var c = q; var _f = function(){ return q }; body }
+    let cs := cs.push { typ := BT.loop, label := lab }
+    let cs := cs.push { typ := BT.iterScope }            -- compileForHeadLexDecl (:237)
+    let cs := cs.emit (.enterBlock 1)
+    let cs := cs.emit (.cntZero id)
+    let cs := cs.emit .copyStash                         -- code[start-1] (jump(1) replaced: the scope needs a stash)
+    let start := cs.size
+    let cs := cs.emit (.cntLt id n)
+    let j := cs.size
+    let cs := cs.emit .nop
+    let cs := compileCF id none body cs
+    let contPc := cs.size
+    let cs : CS := { cs with blocks := match cs.blocks with
+                                      | sb :: lb :: r => sb :: { lb with cont := contPc } :: r
+                                      | bs => bs }
+    let cs := cs.emit .copyStash                         -- code[loopBlock.cont]
+    let cs := cs.emit (.cntInc id)
+    let cs := cs.emit (.jump (CS.rel start cs.size))
+    let cs := cs.patch j (.jneP (CS.rel cs.size j))
+    (cs.leaveScopeBlock 1).leaveBlock
   | .loop .forin id n body, cs =>
     -- compiler_stmt.go:407 compileLabeledForInOfStatement, iter = false
     let cs := cs.push { typ := BT.loopEnum, label := lab }
@@ -266,12 +297,17 @@ def compileCF (cur : Nat) (lab : Option Label) : Stmt → CS → CS
   | .forOf sp body, cs =>
     -- compiler_stmt.go:407 compileLabeledForInOfStatement, iter = true
     let cs := cs.push { typ := BT.loopEnum, label := lab }
+    -- `for (let x of ..)`: head scope for the TDZ of x; the source does not use x, so the scope is dropped
+    -- again and its placeholder stays a `jump 1`
+    let cs := if sp.lex then cs.emit (.jump 1) else cs
     let cs := cs.emit (.iterateP sp)
     let start := cs.size
     let cs := cs.modTop (fun b => { b with cont := start })
     let cs := cs.emit .nop
+    let cs := if sp.lex then (cs.push { typ := BT.iterScope }).emit (.enterBlock 1) else cs   -- compileForInto, ForDeclaration (:374)
     let cs := cs.emit (.enumGet sp.id)
     let cs := compileCF sp.id none body cs
+    let cs := if sp.lex then cs.leaveScopeBlock 1 else cs
     let cs := cs.emit (.jump (CS.rel start cs.size))
     let cs := cs.patch start (.iterNext (CS.rel cs.size start))
     let cs := (cs.emit .enumPop).emit (.jump 2)
@@ -524,6 +560,7 @@ def step (vm : VM) : Instr → VM
     | [] => vm.next
   | .enterWith => vm.popV.next
   | .leaveWith => vm.next
+  | .copyStash => vm.next
   | .enterBlock n => { vm with stack := List.replicate n 0 ++ vm.stack }.next
   | .leaveBlock n => { vm with stack := vm.stack.drop n }.next
   | .ret => { vm with halted := some (Compl.ret vm.top) }
@@ -570,7 +607,7 @@ def showInstr : Instr → String
   | .enumPop => "enumPop" | .enumPopClose => "enumPopClose"
   | .enumerate _ => "enumerate" | .enumNext o => s!"enumNext {o}"
   | .enterWith => "enterWith" | .leaveWith => "leaveWith"
-  | .enterBlock _ => "enterBlock" | .leaveBlock _ => "leaveBlock"
+  | .enterBlock _ => "enterBlock" | .leaveBlock _ => "leaveBlock" | .copyStash => "copyStash"
   | .ret => "ret" | .throw => "throw" | .nop => "NOP"
 
 def showCode (code : Array Instr) : String := ";".intercalate (code.toList.map showInstr)
